@@ -1,8 +1,10 @@
 (** Property C05: everything after [--] is delivered verbatim as positional values.
-    Only pinned statements; proofs live in ParseProofs/Escape.v. *)
+    Only pinned statements; proofs live in ParseProofs/Escape.v (the loop after the escape) and, round 2,
+    ParseProofs/EscapeWalk.v (the loop before the escape), EscapeStore.v (pending values -> entry),
+    EscapeTop.v (get_matches_with / do_parse / parse_top). *)
 From ClapModel Require Import Base.Bytes Base.Machine Base.Utf8 Lex.OsStrExtModel.
 From ClapModel Require Import Parse.Cmd Parse.Build Parse.Valid Parse.Matcher Parse.Errors Parse.Validator Parse.Parser.
-From ClapModel Require Import ParseProofs.Escape.
+From ClapModel Require Import ParseProofs.Totality ParseProofs.Dispatch ParseProofs.Escape ParseProofs.EscapeWalk ParseProofs.EscapeStore ParseProofs.EscapeLevel ParseProofs.EscapeChain ParseProofs.EscapeDisplay ParseProofs.EscapeGlobals ParseProofs.EscapeTop.
 From Coq Require Import ZArith.
 From RecordUpdate Require Import RecordSet.
 Import RecordSetNotations.
@@ -128,3 +130,422 @@ Theorem C05_values_appended : forall c a raw st st' m gs g,
   exists m', get_entry (a_id a) st' = Some m' /\ m_raw m' = gs ++ [g ++ raw].
 Proof. exact push_arg_values_entry. Qed.
 Print Assumptions C05_values_appended.
+
+(** * Round 2: from the loop to the whole parse *)
+
+(** What the proofs need of one (built) command level; both follow from the build step and the
+    validity gate, for every level of a [plain], [valid] definition. *)
+Theorem C05_level_facts : forall c, wfc c -> assert_app c = true -> lvl c /\ lvl_store c.
+Proof. exact (fun c Hw Ha => conj (lvl_of_wfc c Hw Ha) (lvl_store_of_wfc c Hw Ha)). Qed.
+Print Assumptions C05_level_facts.
+
+(** The loop BEFORE the escape.  For every level without hyphen-accepting arguments in which [--]
+    is no subcommand name, every prefix, every two tails and every state satisfying the invariant
+    [TV] (the pending occurrence belongs to an argument that takes values, its trailing index is
+    in range -- trivially true of the states the loop is entered with): the two lines
+    [pre ++ -- :: t1] and [pre ++ -- :: t2] either both continue in trailing mode from ONE state
+    [(ls', st')] reached independently of the tails (again satisfying [TV], with the recorded
+    subcommand unchanged), or both end inside [pre] with the same error/panic, or both hand
+    [-- :: t1] / [-- :: t2] unread to the same subcommand, help subcommand or external subcommand
+    selected by [pre]. *)
+Theorem C05_escape_line_sim : forall c,
+  (forall a, In a (c_args c) -> find_arg c (a_id a) = Some a) ->
+  (forall a, In a (c_args c) -> a_index a <> None -> a_takes_value a = true) ->
+  (forall a, In a (c_args c) -> a_hyphen a = false) ->
+  (forall vaf, possible_subcommand c dashdash vaf = None) ->
+  forall pre t1 t2 ls st, TV c st -> LTV c ls ->
+  esim c t1 t2 ls st (parse_loop c (pre ++ dashdash :: t1) ls st) (parse_loop c (pre ++ dashdash :: t2) ls st).
+Proof. exact escape_line_sim. Qed.
+Print Assumptions C05_escape_line_sim.
+
+(** (1a) [C05_trailing_no_display] closed: in trailing mode, from a state satisfying [TV], no
+    DisplayHelp/DisplayVersion outcome exists at all. *)
+Theorem C05_trailing_never_displays : forall c,
+  (forall a, In a (c_args c) -> find_arg c (a_id a) = Some a) ->
+  (forall a, In a (c_args c) -> a_index a <> None -> a_takes_value a = true) ->
+  (forall a, In a (c_args c) -> display_action a = true -> a_takes_value a = false) ->
+  forall toks ls st e st',
+  l_trailing ls = true -> TV c st -> parse_loop c toks ls st = RErr e st' -> is_display (e_kind e) = false.
+Proof. exact trailing_no_display_TV. Qed.
+Print Assumptions C05_trailing_never_displays.
+
+(** (1b) ... and for the whole line, from the states the loop is entered with: a help/version
+    outcome of [pre ++ -- :: t] is the outcome of [pre ++ -- :: t2] for EVERY tail [t2] (the empty
+    one included) -- no token of the tail caused it. *)
+Theorem C05_display_not_from_tail : forall c,
+  lvl c -> (forall a, In a (c_args c) -> a_hyphen a = false) ->
+  (forall vaf, possible_subcommand c dashdash vaf = None) ->
+  forall pre t t2 st0 e st',
+  mt_pending (mt st0) = None ->
+  parse_loop c (pre ++ dashdash :: t) ls0 st0 = RErr e st' -> is_display (e_kind e) = true ->
+  parse_loop c (pre ++ dashdash :: t2) ls0 st0 = RErr e st'.
+Proof. exact (fun c Hl Hnh Hdd => display_not_from_tail_initial c Hl Hnh Hdd). Qed.
+Print Assumptions C05_display_not_from_tail.
+
+(** (2) pending values -> raw occurrence, ONE theorem through [resolve_pending]/[react_core]
+    ([verify_num_args], delimiter block, [mt_remove]/[start_custom_arg], [push_arg_values]): closing
+    the occurrence [earlier ++ t] of a Set/Append argument whose trailing index lies at or before
+    the first value of [t] leaves an entry whose LAST value group is [earlier] (delimited as usual)
+    followed by [t] in its stored form [tail_form] (= [t] itself with
+    [dont_delimit_trailing_values] or without a declared delimiter). *)
+Theorem C05_sink_resolve : forall c st p a earlier t k st',
+  find_group c (a_id a) = None ->
+  a_get_action a = ASet \/ a_get_action a = AAppend ->
+  mt_pending (mt st) = Some p -> find_arg c (p_id p) = Some a ->
+  p_raw p = earlier ++ t -> t <> [] -> p_trailing_idx p = Some k -> k <= N.of_nat (length earlier) ->
+  resolve_pending c st = ROk st' ->
+  exists e gs early' t',
+    get_entry (a_id a) st' = Some e /\ m_raw e = gs ++ [early' ++ t'] /\ m_source e = Some SCmdLine /\
+    delimit c a earlier (Some k) = Some early' /\ tail_form c a t = Some t' /\
+    mt_pending (mt st') = None.
+Proof. exact sink_resolve. Qed.
+Print Assumptions C05_sink_resolve.
+
+Theorem C05_tail_form_verbatim : forall c a t,
+  (is_set s_dont_delimit_trailing c = true \/ a_delim a = None) -> tail_form c a t = Some t.
+Proof. exact (fun c a t H => match H with or_introl H1 => tail_form_ddt c a t H1 | or_intror H2 => tail_form_no_delim c a t H2 end). Qed.
+Print Assumptions C05_tail_form_verbatim.
+
+(** (3), one level ([get_matches_with] = loop + [resolve_pending] + [add_env] + [add_defaults] +
+    [validate]).  A successful parse of [pre ++ -- :: t], [t] non-empty, either consumed the [--] at
+    this level or [pre] itself selected a subcommand / external subcommand, which then receives
+    [-- :: t] unread.  "Consumed" is spelled out for two classes of levels:
+    [consumed_sink] -- class [sink_from c 1 a]: after the escape every token goes to the multi-valued,
+    unterminated positional [a], for every value of the positional counter ([last] positional /
+    [allow_missing_positional]) or because the counter cannot move ([sticky]): the loop ended with
+    [LDone] (no token of [t] dispatched anything), the recorded subcommand is that of the initial
+    state, and the final entry of [a] has [t] (stored form) as the suffix of its last value group;
+    [consumed_chain] -- class [chainc c]: single-valued positionals followed by a multi-valued one, no
+    terminators, no [last]/[allow_missing_positional]: same, and the tokens are distributed in order,
+    one to each single-valued positional from some index [pc] on, all the rest to the multi-valued one
+    ([chain_filled]; [x] is [[]], or [[--]] when [trailing_var_arg] had switched the loop to trailing
+    mode before, so that the [--] itself is a value). *)
+Theorem C05_level_tail_verbatim : forall c,
+  lvl c -> lvl_store c -> (forall a, In a (c_args c) -> a_hyphen a = false) ->
+  (forall vaf, possible_subcommand c dashdash vaf = None) ->
+  forall f pre t st0 st',
+  t <> [] -> mt_pending (mt st0) = None ->
+  get_matches_with (S f) c (pre ++ dashdash :: t) st0 = ROk st' ->
+  (consumed_sink c t st0 st' (parse_loop c (pre ++ dashdash :: t) ls0 st0) /\
+   consumed_chain c t st0 st' (parse_loop c (pre ++ dashdash :: t) ls0 st0))
+  \/ (exists n k v st1 r, parse_loop c (pre ++ dashdash :: t) ls0 st0 = ROk (LSub n k v st1 (r ++ dashdash :: t)))
+  \/ (exists tk r st1, parse_loop c (pre ++ dashdash :: t) ls0 st0 = ROk (LExternal tk (r ++ dashdash :: t) st1)).
+Proof. exact level_tail_verbatim. Qed.
+Print Assumptions C05_level_tail_verbatim.
+
+(** the two definitions, pinned by unfolding *)
+Theorem C05_consumed_sink_def : forall c t st0 st' lr,
+  consumed_sink c t st0 st' lr <->
+  (forall a, sink_from c 1 a ->
+    exists st1 e gs early' t',
+      lr = ROk (LDone st1) /\ mt_sub (mt st') = mt_sub (mt st0) /\
+      get_entry (a_id a) st' = Some e /\ m_raw e = gs ++ [early' ++ t'] /\ m_source e = Some SCmdLine /\
+      tail_form c a t = Some t').
+Proof. exact (fun c t st0 st' lr => conj (fun H => H) (fun H => H)). Qed.
+Print Assumptions C05_consumed_sink_def.
+
+Theorem C05_consumed_chain_def : forall c t st0 st' lr,
+  consumed_chain c t st0 st' lr <->
+  (chainc c = true ->
+    exists st1 x pc,
+      lr = ROk (LDone st1) /\ mt_sub (mt st') = mt_sub (mt st0) /\
+      chain_filled c (fun y => get_entry y st') pc (x ++ t)).
+Proof. exact (fun c t st0 st' lr => conj (fun H => H) (fun H => H)). Qed.
+Print Assumptions C05_consumed_chain_def.
+
+(** the loop-level core of the chain class: in trailing mode, after the loop and [resolve_pending] *)
+Theorem C05_chain_run : forall c, lvl c -> lvl_store c -> chainc c = true ->
+  forall t ls st s1 s2, t <> [] -> l_trailing ls = true -> TV c st ->
+  parse_loop c t ls st = ROk (LDone s1) -> resolve_pending c s1 = ROk s2 ->
+  chain_filled c (fun y => get_entry y s2) (l_pos ls) t.
+Proof. exact chain_run. Qed.
+Print Assumptions C05_chain_run.
+
+(** (4), one level: two successful parses of the same prefix with tails [t1], [t2] (either may be
+    empty: "without the tail") agree on every command-line entry outside [touched c a] (sink class) /
+    outside [touched] of every positional (chain class). *)
+Theorem C05_level_prefix_entries : forall c,
+  lvl c -> lvl_store c -> (forall a, In a (c_args c) -> a_hyphen a = false) ->
+  (forall vaf, possible_subcommand c dashdash vaf = None) ->
+  forall f pre t1 t2 st0 s1 s2,
+  mt_pending (mt st0) = None ->
+  get_matches_with (S f) c (pre ++ dashdash :: t1) st0 = ROk s1 ->
+  get_matches_with (S f) c (pre ++ dashdash :: t2) st0 = ROk s2 ->
+  (same_sink c st0 s1 s2 (parse_loop c (pre ++ dashdash :: t1) ls0 st0) (parse_loop c (pre ++ dashdash :: t2) ls0 st0) /\
+   same_chain c st0 s1 s2 (parse_loop c (pre ++ dashdash :: t1) ls0 st0) (parse_loop c (pre ++ dashdash :: t2) ls0 st0))
+  \/ (exists n k v st1 r,
+        parse_loop c (pre ++ dashdash :: t1) ls0 st0 = ROk (LSub n k v st1 (r ++ dashdash :: t1)) /\
+        parse_loop c (pre ++ dashdash :: t2) ls0 st0 = ROk (LSub n k v st1 (r ++ dashdash :: t2)))
+  \/ (exists tk r st1,
+        parse_loop c (pre ++ dashdash :: t1) ls0 st0 = ROk (LExternal tk (r ++ dashdash :: t1) st1) /\
+        parse_loop c (pre ++ dashdash :: t2) ls0 st0 = ROk (LExternal tk (r ++ dashdash :: t2) st1)).
+Proof. exact level_prefix_entries. Qed.
+Print Assumptions C05_level_prefix_entries.
+
+Theorem C05_same_sink_def : forall c st0 s1 s2 lr1 lr2,
+  same_sink c st0 s1 s2 lr1 lr2 <->
+  (forall a, sink_from c 1 a ->
+    exists l1 l2,
+      lr1 = ROk (LDone l1) /\ lr2 = ROk (LDone l2) /\
+      mt_sub (mt s1) = mt_sub (mt st0) /\ mt_sub (mt s2) = mt_sub (mt st0) /\
+      forall y e, touched c a y = false -> find_group c y = None ->
+                  get_entry y s1 = Some e -> m_source e = Some SCmdLine -> get_entry y s2 = Some e).
+Proof. exact (fun c st0 s1 s2 lr1 lr2 => conj (fun H => H) (fun H => H)). Qed.
+Print Assumptions C05_same_sink_def.
+
+Theorem C05_same_chain_def : forall c st0 s1 s2 lr1 lr2,
+  same_chain c st0 s1 s2 lr1 lr2 <->
+  (chainc c = true ->
+    exists l1 l2,
+      lr1 = ROk (LDone l1) /\ lr2 = ROk (LDone l2) /\
+      mt_sub (mt s1) = mt_sub (mt st0) /\ mt_sub (mt s2) = mt_sub (mt st0) /\
+      forall y e, (forall j a', get_pos c j = Some a' -> touched c a' y = false) -> find_group c y = None ->
+                  get_entry y s1 = Some e -> m_source e = Some SCmdLine -> get_entry y s2 = Some e).
+Proof. exact (fun c st0 s1 s2 lr1 lr2 => conj (fun H => H) (fun H => H)). Qed.
+Print Assumptions C05_same_chain_def.
+
+(** (3)/(4) over the recursion into subcommands, for trees all of whose levels are built, pass the
+    validity gate, have no [ignore_errors], no hyphen-accepting argument and no subcommand named
+    [--] ([esc_ok]); [delivered] / [prefix_same] say at which level the [--] was consumed. *)
+Theorem C05_gmw_delivered : forall fuel c pre t st0 st',
+  esc_ok fuel c -> t <> [] -> mt_pending (mt st0) = None -> mt_sub (mt st0) = None ->
+  get_matches_with fuel c (pre ++ dashdash :: t) st0 = ROk st' ->
+  delivered fuel c t (into_inner (mt st')).
+Proof. exact gmw_delivered. Qed.
+Print Assumptions C05_gmw_delivered.
+
+Theorem C05_gmw_prefix_same : forall fuel c pre t1 t2 st0 s1 s2,
+  esc_ok fuel c -> mt_pending (mt st0) = None -> mt_sub (mt st0) = None ->
+  get_matches_with fuel c (pre ++ dashdash :: t1) st0 = ROk s1 ->
+  get_matches_with fuel c (pre ++ dashdash :: t2) st0 = ROk s2 ->
+  prefix_same fuel c (into_inner (mt s1)) (into_inner (mt s2)).
+Proof. exact gmw_prefix_same. Qed.
+Print Assumptions C05_gmw_prefix_same.
+
+(** The boolean class implies [esc_ok] of the built root (with [valid], absence of [ignore_errors]
+    at the root, and absence of global arguments). *)
+Theorem C05_class_ok : forall c0, esc_class c0 = true ->
+  valid c0 = true /\ esc_ok (top_fuel c0) (build_self c0) /\ is_set s_ignore_errors (build_self c0) = false
+  /\ globals_free (build_recursive (top_fuel c0) c0) = true.
+Proof. exact esc_class_ok. Qed.
+Print Assumptions C05_class_ok.
+
+(** (3) for [parse_top]: for every definition of the boolean class [esc_class], every binary name,
+    prefix and non-empty tail: if the parse succeeds, the tail has been [delivered]. *)
+Theorem C05_parse_top_delivered : forall c0 bin pre t m,
+  esc_class c0 = true -> is_set s_no_binary_name c0 = false -> c_bin_name c0 <> None -> t <> [] ->
+  parse_top c0 (bin :: pre ++ dashdash :: t) = OOk m ->
+  delivered (top_fuel c0) (build_self c0) t m.
+Proof. exact parse_top_delivered. Qed.
+Print Assumptions C05_parse_top_delivered.
+
+Theorem C05_do_parse_delivered : forall c0 pre t m,
+  esc_class c0 = true -> t <> [] ->
+  do_parse c0 (pre ++ dashdash :: t) = OOk m ->
+  delivered (top_fuel c0) (build_self c0) t m.
+Proof. exact do_parse_delivered. Qed.
+Print Assumptions C05_do_parse_delivered.
+
+(** (4) for [parse_top]: the same prefix parsed with two tails (one may be empty). *)
+Theorem C05_parse_top_prefix_same : forall c0 bin pre t1 t2 m1 m2,
+  esc_class c0 = true -> is_set s_no_binary_name c0 = false -> c_bin_name c0 <> None ->
+  parse_top c0 (bin :: pre ++ dashdash :: t1) = OOk m1 -> parse_top c0 (bin :: pre ++ dashdash :: t2) = OOk m2 ->
+  prefix_same (top_fuel c0) (build_self c0) m1 m2.
+Proof. exact parse_top_prefix_same. Qed.
+Print Assumptions C05_parse_top_prefix_same.
+
+Theorem C05_do_parse_prefix_same : forall c0 pre t1 t2 m1 m2,
+  esc_class c0 = true ->
+  do_parse c0 (pre ++ dashdash :: t1) = OOk m1 -> do_parse c0 (pre ++ dashdash :: t2) = OOk m2 ->
+  prefix_same (top_fuel c0) (build_self c0) m1 m2.
+Proof. exact do_parse_prefix_same. Qed.
+Print Assumptions C05_do_parse_prefix_same.
+
+(** The full-strength reading of the last sentence ("ALL entries given before the [--] are those of
+    the parse without the tail") is false of the model and of clap: an option in an overrides
+    relation with the positional loses its entry -- the exception [touched] characterises. *)
+Theorem C05_prefix_unrestricted_refuted : exists c0 pre t m1 m2 y,
+  esc_class c0 = true /\ do_parse c0 (pre ++ dashdash :: t) = OOk m1 /\ do_parse c0 (pre ++ dashdash :: []) = OOk m2 /\
+  fm_get y (ms_args m2) <> None /\ fm_get y (ms_args m1) = None.
+Proof. exact prefix_unrestricted_refuted. Qed.
+Print Assumptions C05_prefix_unrestricted_refuted.
+
+(** * The predicates used above, pinned by their unfolding (so that a change of a definition in a
+    proof file shows up as a changed statement) *)
+Theorem C05_sink_from_def : forall c pc0 a,
+  sink_from c pc0 a <-> ((forall pc, sink_arg c pc = Some a) \/ (sticky c = true /\ sink_arg c pc0 = Some a)).
+Proof. exact (fun c pc0 a => conj (fun H => H) (fun H => H)). Qed.
+Print Assumptions C05_sink_from_def.
+
+Theorem C05_tail_form_def : forall c a t,
+  tail_form c a t = if is_set s_dont_delimit_trailing c then Some t else delimit c a t None.
+Proof. exact (fun c a t => eq_refl). Qed.
+Print Assumptions C05_tail_form_def.
+
+Theorem C05_chain_filled_def : forall c get pc t,
+  chain_filled c get pc t <->
+  ((exists a e gs early t', get_pos c pc = Some a /\ a_multiple_values a = true /\ t <> [] /\
+      get (a_id a) = Some e /\ m_raw e = gs ++ [early ++ t'] /\ tail_form c a t = Some t')
+   \/ (exists a tok e gs t', t = [tok] /\ get_pos c pc = Some a /\ a_is_multiple a = false /\
+         get (a_id a) = Some e /\ m_raw e = gs ++ [t'] /\ tail_form c a [tok] = Some t')
+   \/ (exists a tok rest e gs t', t = tok :: rest /\ rest <> [] /\ get_pos c pc = Some a /\ a_is_multiple a = false /\
+         get (a_id a) = Some e /\ m_raw e = gs ++ [t'] /\ tail_form c a [tok] = Some t' /\
+         chain_filled c get (pc + 1) rest)).
+Proof. exact chain_filled_def. Qed.
+Print Assumptions C05_chain_filled_def.
+
+Theorem C05_delivered_def : forall f c t m,
+  delivered (S f) c t m <->
+  (((forall a, sink_from c 1 a ->
+       ms_sub m = None /\
+       exists e gs early' t', fm_get (a_id a) (ms_args m) = Some e /\ m_raw e = gs ++ [early' ++ t']
+                              /\ m_source e = Some SCmdLine /\ tail_form c a t = Some t')
+    /\ (chainc c = true ->
+        ms_sub m = None /\ exists x pc, chain_filled c (fun y => fm_get y (ms_args m)) pc (x ++ t)))
+   \/ (exists name sc sm, build_subcommand c name = Some sc /\ ms_sub m = Some (c_name sc, sm) /\ delivered f sc t sm)
+   \/ (exists name vals sm, ms_sub m = Some (name, sm) /\ ms_sub sm = None /\
+                            fm_get ext_id (ms_args sm) = Some (ext_marg (vals ++ dashdash :: t)))).
+Proof. exact (fun f c t m => conj (fun H => H) (fun H => H)). Qed.
+Print Assumptions C05_delivered_def.
+
+Theorem C05_prefix_same_def : forall f c m1 m2,
+  prefix_same (S f) c m1 m2 <->
+  (((forall a, sink_from c 1 a ->
+       ms_sub m1 = None /\ ms_sub m2 = None /\
+       forall y e, touched c a y = false -> find_group c y = None ->
+                   fm_get y (ms_args m1) = Some e -> m_source e = Some SCmdLine -> fm_get y (ms_args m2) = Some e)
+    /\ (chainc c = true ->
+        ms_sub m1 = None /\ ms_sub m2 = None /\
+        forall y e, (forall j a', get_pos c j = Some a' -> touched c a' y = false) -> find_group c y = None ->
+                    fm_get y (ms_args m1) = Some e -> m_source e = Some SCmdLine -> fm_get y (ms_args m2) = Some e))
+   \/ (exists name sc sm1 sm2, build_subcommand c name = Some sc /\ ms_sub m1 = Some (c_name sc, sm1)
+                               /\ ms_sub m2 = Some (c_name sc, sm2) /\ ms_args m1 = ms_args m2
+                               /\ prefix_same f sc sm1 sm2)
+   \/ (exists name vals t1 t2,
+         ms_sub m1 = Some (name, Matches [(ext_id, ext_marg (vals ++ dashdash :: t1))] None) /\
+         ms_sub m2 = Some (name, Matches [(ext_id, ext_marg (vals ++ dashdash :: t2))] None) /\
+         ms_args m1 = ms_args m2)).
+Proof. exact (fun f c m1 m2 => conj (fun H => H) (fun H => H)). Qed.
+Print Assumptions C05_prefix_same_def.
+
+Theorem C05_esc_class_def : forall c0,
+  esc_class0 c0 = plain c0 && valid c0 && esc_okb (top_fuel c0) (build_self c0) /\
+  esc_class c0 = esc_class0 c0 && globals_free (build_recursive (top_fuel c0) c0).
+Proof. exact (fun c0 => conj eq_refl eq_refl). Qed.
+Print Assumptions C05_esc_class_def.
+
+Theorem C05_esc_okb_def : forall f c,
+  esc_okb (S f) c =
+  negb (is_set s_ignore_errors c) && forallb (fun a => negb (a_hyphen a)) (c_args c)
+  && negb (is_some (possible_subcommand c dashdash false)) && negb (is_some (possible_subcommand c dashdash true))
+  && forallb (fun a => negb (display_action a)
+                       || (negb (is_some (a_env a)) && is_nil (a_default a) && is_nil (a_default_ifs a))) (c_args c)
+  && forallb (fun s => match build_subcommand c (c_name s) with Some sc => esc_okb f sc | None => false end) (c_subs c).
+Proof. exact (fun f c => eq_refl). Qed.
+Print Assumptions C05_esc_okb_def.
+
+Theorem C05_TV_def : forall c st,
+  TV c st <-> (forall p, mt_pending (mt st) = Some p ->
+                 (forall a, find_arg c (p_id p) = Some a -> a_takes_value a = true)
+                 /\ (forall k, p_trailing_idx p = Some k -> k <= N.of_nat (length (p_raw p)))).
+Proof. exact (fun c st => conj (fun H => H) (fun H => H)). Qed.
+Print Assumptions C05_TV_def.
+
+(** * Help/version outcomes of the whole parse *)
+
+(** the phases after a successful loop ([resolve_pending], [add_env], [add_defaults], [validate]) raise no
+    DisplayHelp/DisplayVersion when the loop left a [TV] state and no Help/Version argument carries an env
+    variable or a default ([nodisp_src]) *)
+Theorem C05_post_no_display : forall c, lvl c -> nodisp_src c ->
+  forall stp e s, TV c stp -> post c (ROk stp) = RErr e s -> is_display (e_kind e) = false.
+Proof. exact post_no_display. Qed.
+Print Assumptions C05_post_no_display.
+
+(** (1) over the recursion into subcommands: a DisplayHelp/DisplayVersion outcome of
+    [get_matches_with] on [pre ++ -- :: t1] is the outcome (same error) on [pre ++ -- :: t2] for every [t2] *)
+Theorem C05_gmw_display_not_from_tail : forall fuel c pre t1 t2 st0 e s,
+  esc_ok fuel c -> mt_pending (mt st0) = None ->
+  get_matches_with fuel c (pre ++ dashdash :: t1) st0 = RErr e s -> is_display (e_kind e) = true ->
+  exists s', get_matches_with fuel c (pre ++ dashdash :: t2) st0 = RErr e s'.
+Proof. exact gmw_display_not_from_tail. Qed.
+Print Assumptions C05_gmw_display_not_from_tail.
+
+(** (1) for [parse_top]: no token after the [--] is a help or version request -- a help/version
+    outcome of [bin pre.. -- t1..] is the outcome of [bin pre.. -- t2..] for every [t2], the empty one included
+    (class [esc_class0]: global arguments allowed) *)
+Theorem C05_parse_top_display_not_from_tail : forall c0 bin pre t1 t2 e,
+  esc_class0 c0 = true -> is_set s_no_binary_name c0 = false -> c_bin_name c0 <> None ->
+  parse_top c0 (bin :: pre ++ dashdash :: t1) = OErr e -> is_display (e_kind e) = true ->
+  parse_top c0 (bin :: pre ++ dashdash :: t2) = OErr e.
+Proof. exact parse_top_display_not_from_tail. Qed.
+Print Assumptions C05_parse_top_display_not_from_tail.
+
+Theorem C05_do_parse_display_not_from_tail : forall c0 pre t1 t2 e,
+  esc_class0 c0 = true -> do_parse c0 (pre ++ dashdash :: t1) = OErr e -> is_display (e_kind e) = true ->
+  do_parse c0 (pre ++ dashdash :: t2) = OErr e.
+Proof. exact do_parse_display_not_from_tail. Qed.
+Print Assumptions C05_do_parse_display_not_from_tail.
+
+Theorem C05_nodisp_src_def : forall c,
+  nodisp_src c <-> (forall a, In a (c_args c) -> display_action a = true ->
+                      a_env a = None /\ a_default a = [] /\ a_default_ifs a = []).
+Proof. exact (fun c => conj (fun H => H) (fun H => H)). Qed.
+Print Assumptions C05_nodisp_src_def.
+
+(** Outside the classes above (and outside the property's class, whose multi-valued positional is the
+    TRAILING one): with the low-index-multiple rule ([prog <files>... <dest>]) the shape of a tail
+    token still decides the outcome -- [prog -- v -x c] is rejected (UnknownArgument), [prog -- v b c]
+    is accepted.  Model and implementation agree. *)
+Theorem C05_low_index_tail_shape_refuted : exists c0 tail alt,
+  plain c0 = true /\ valid c0 = true /\ length tail = length alt /\
+  (exists m, do_parse c0 (dashdash :: alt) = OOk m) /\
+  (exists e, do_parse c0 (dashdash :: tail) = OErr e /\ e_kind e = EUnknownArgument).
+Proof. exact low_index_tail_shape_refuted. Qed.
+Print Assumptions C05_low_index_tail_shape_refuted.
+
+(** * Global arguments *)
+
+(** [fill_in_global_values] (applied by [do_parse] to a successful result) writes only entries whose id
+    is in the list it is given: the two matches trees agree, level by level, on every other entry *)
+Theorem C05_fill_globals_frame : forall gl gs, (forall g, In g gs -> mem_id g gl = true) ->
+  forall f m vm, keys_in gl vm ->
+  keys_in gl (snd (fill_in_global_values f gs m vm)) /\ sng gl m (fst (fill_in_global_values f gs m vm)).
+Proof. exact fill_spec. Qed.
+Print Assumptions C05_fill_globals_frame.
+
+(** (3) for [parse_top] with global arguments: class [esc_class_g] = [esc_class0] and no positional of
+    any level (nor the external-subcommand slot) carries the id of a global argument of the tree *)
+Theorem C05_parse_top_delivered_g : forall c0 bin pre t m,
+  esc_class_g c0 = true -> is_set s_no_binary_name c0 = false -> c_bin_name c0 <> None -> t <> [] ->
+  parse_top c0 (bin :: pre ++ dashdash :: t) = OOk m ->
+  delivered (top_fuel c0) (build_self c0) t m.
+Proof. exact parse_top_delivered_g. Qed.
+Print Assumptions C05_parse_top_delivered_g.
+
+Theorem C05_do_parse_delivered_g : forall c0 pre t m,
+  esc_class_g c0 = true -> t <> [] ->
+  do_parse c0 (pre ++ dashdash :: t) = OOk m ->
+  delivered (top_fuel c0) (build_self c0) t m.
+Proof. exact do_parse_delivered_g. Qed.
+Print Assumptions C05_do_parse_delivered_g.
+
+Theorem C05_esc_class_g_def : forall c0 gl f c,
+  esc_class_g c0 = esc_class0 c0 && pos_freeb (all_globals (build_recursive (top_fuel c0) c0)) (top_fuel c0) (build_self c0) /\
+  pos_freeb gl (S f) c =
+    forallb (fun a => if is_some (a_index a) then negb (mem_id (a_id a) gl) else true) (c_args c)
+    && negb (mem_id ext_id gl)
+    && forallb (fun s => match build_subcommand c (c_name s) with Some sc => pos_freeb gl f sc | None => true end) (c_subs c).
+Proof. exact (fun c0 gl f c => conj eq_refl eq_refl). Qed.
+Print Assumptions C05_esc_class_g_def.
+
+(** [parse_top] with a program name to fill in: the [do_parse] theorems above apply to [top_cmd c0 bin]
+    (the definition with [argv[0]] stored as its bin name when none was set) *)
+Theorem C05_parse_top_is_do_parse : forall c0 bin rest,
+  is_set s_no_binary_name c0 = false ->
+  parse_top c0 (bin :: rest) =
+  do_parse (match c_bin_name c0 with
+            | Some _ => c0
+            | None => if utf8_valid bin && negb (is_nil bin) then c0 <| c_bin_name := Some bin |> else c0
+            end) rest.
+Proof. exact parse_top_is_do_parse. Qed.
+Print Assumptions C05_parse_top_is_do_parse.
